@@ -162,8 +162,12 @@ func (s *s3View) del(ctx context.Context, op, key string) error {
 	s.v.log(s.inst.id, actorOf(ctx), op, key, 0, out.String())
 	return out.err()
 }
-func (s *s3View) DeleteSegment(ctx context.Context, key string) error { return s.del(ctx, "delete_segment", key) }
-func (s *s3View) DeleteIndex(ctx context.Context, key string) error   { return s.del(ctx, "delete_index", key) }
+func (s *s3View) DeleteSegment(ctx context.Context, key string) error {
+	return s.del(ctx, "delete_segment", key)
+}
+func (s *s3View) DeleteIndex(ctx context.Context, key string) error {
+	return s.del(ctx, "delete_index", key)
+}
 func (s *s3View) DownloadSegment(ctx context.Context, key string, rng *storage.ByteRange) ([]byte, error) {
 	if s.inst.isDead() {
 		return nil, errDead
@@ -259,7 +263,7 @@ func (s *storeView) UpdateOffsets(ctx context.Context, topic string, partition i
 		return errDead
 	}
 	var ierr error
-	apply := func() { ierr = s.hub.inner.UpdateOffsets(context.Background(), topic, partition, last) }
+	apply := func() { ierr = s.hub.inner.UpdateOffsets(ctx, topic, partition, last) }
 	out := outOK
 	if s.sc != nil && s.sc.gates("update_offsets") {
 		out = s.sc.enter(ctx, s.inst, "update_offsets", fmt.Sprintf("%s/%d=%d", topic, partition, last), apply)
@@ -286,10 +290,11 @@ const (
 	outFailAfter
 	outCrashBefore
 	outCrashAfter
+	outCanceled // the request's context was cancelled (client went away): no effect, context.Canceled
 )
 
 func (o outcome) String() string {
-	return [...]string{"ok", "fail_before", "fail_after", "crash_before", "crash_after"}[o]
+	return [...]string{"ok", "fail_before", "fail_after", "crash_before", "crash_after", "ctx_canceled"}[o]
 }
 func (o outcome) err() error {
 	switch o {
@@ -297,6 +302,8 @@ func (o outcome) err() error {
 		return nil
 	case outFailBefore, outFailAfter:
 		return errInjected
+	case outCanceled:
+		return context.Canceled
 	}
 	return errDead
 }
@@ -332,6 +339,9 @@ type sched struct {
 func (s *sched) gates(kind string) bool { return s.gated[kind] }
 
 func (s *sched) enter(ctx context.Context, inst *instance, kind, key string, apply func()) outcome {
+	if ctx.Err() != nil { // a real S3/etcd client refuses to start on a dead context
+		return outCanceled
+	}
 	op := &gateOp{Actor: actorOf(ctx), Inst: inst, Kind: kind, Key: key, apply: apply, ch: make(chan outcome, 1)}
 	s.mu.Lock()
 	s.pending = append(s.pending, op)
@@ -367,7 +377,7 @@ func (s *sched) complete(op *gateOp, out outcome) {
 	case outOK, outFailAfter:
 		op.apply()
 		op.ch <- out
-	case outFailBefore:
+	case outFailBefore, outCanceled:
 		op.ch <- out
 	case outCrashBefore, outCrashAfter:
 		if out == outCrashAfter {
@@ -416,7 +426,7 @@ func (c *rngChooser) pick(labels []string) int {
 	// split into plain and fault actions so that faults keep a fixed probability
 	var plain, faulty []int
 	for i, l := range labels {
-		if strings.HasPrefix(l, "fail") || strings.HasPrefix(l, "crash") {
+		if strings.HasPrefix(l, "fail") || strings.HasPrefix(l, "crash") || strings.HasPrefix(l, "cancel") {
 			faulty = append(faulty, i)
 		} else {
 			plain = append(plain, i)
@@ -527,6 +537,7 @@ type plogCfg struct {
 	FaultBudget    int
 	FaultOn        []string // op kinds that may be faulted (default: uploads)
 	CrashBudget    int
+	CancelBudget   int // how many in-flight requests may have their context cancelled while blocked at a gate
 	FlushOnAck     bool
 	BufferMaxBytes int
 	BufferMaxMsgs  int
@@ -540,21 +551,24 @@ type plogCfg struct {
 }
 
 type scenario struct {
-	t       *testing.T
-	cfg     plogCfg
-	s3      *vS3
-	hub     *storeHub
-	sc      *sched
-	insts   []*instance
-	hs      []*handler
-	cur     int
-	actors  []*plogActor
-	orphans []*plogActor
-	results []plogRes
-	trace   []string
-	step    int
-	faults  int
-	crashes int
+	t        *testing.T
+	cfg      plogCfg
+	s3       *vS3
+	hub      *storeHub
+	sc       *sched
+	insts    []*instance
+	hs       []*handler
+	cur      int
+	actors   []*plogActor
+	orphans  []*plogActor
+	results  []plogRes
+	trace    []string
+	step     int
+	faults   int
+	crashes  int
+	cancels  int
+	cancelMu sync.Mutex
+	cancelFn map[int]context.CancelFunc
 	// monitor hooks, called by the scheduler goroutine while the system is quiescent
 	onReply     func(s *scenario, r plogRes)
 	onQuiescent func(s *scenario)
@@ -629,7 +643,11 @@ func (s *scenario) faultable(kind string) bool {
 // exec runs one request against handler h the way the broker's connection loop
 // would (Handle → encoded response) and decodes the reply with kmsg.
 func plogExec(h *handler, inst *instance, actor int, idx int, rq plogReq) plogRes {
-	ctx := context.WithValue(context.Background(), ctxActorKey{}, actor)
+	return plogExecCtx(context.Background(), h, inst, actor, idx, rq)
+}
+
+func plogExecCtx(parent context.Context, h *handler, inst *instance, actor int, idx int, rq plogReq) plogRes {
+	ctx := context.WithValue(parent, ctxActorKey{}, actor)
 	res := plogRes{Actor: actor, ReqIdx: idx, Req: rq, Inst: inst.id, Base: -1}
 	defer func() {
 		if p := recover(); p != nil {
@@ -748,7 +766,15 @@ func skipRespHeader(payload []byte, flexible bool) []byte {
 func (s *scenario) actorLoop(a *plogActor) {
 	for idx := range a.startCh {
 		h, inst := s.hs[s.cur], s.insts[s.cur]
-		res := plogExec(h, inst, a.id, idx, a.reqs[idx])
+		ctx, cancel := context.WithCancel(context.Background())
+		s.cancelMu.Lock()
+		if s.cancelFn == nil {
+			s.cancelFn = map[int]context.CancelFunc{}
+		}
+		s.cancelFn[a.id] = cancel
+		s.cancelMu.Unlock()
+		res := plogExecCtx(ctx, h, inst, a.id, idx, a.reqs[idx])
+		cancel()
 		if inst.isDead() {
 			res.Lost = true
 		}
@@ -814,6 +840,34 @@ func (s *scenario) run(ch chooser) {
 					s.sc.complete(op, fk)
 					if isCrash {
 						s.restart()
+					}
+				}})
+			}
+		}
+		if s.cancels < s.cfg.CancelBudget {
+			byActor := map[int][]*gateOp{}
+			for _, op := range s.sc.snapshot() {
+				byActor[op.Actor] = append(byActor[op.Actor], op)
+			}
+			ids := make([]int, 0, len(byActor))
+			for id := range byActor {
+				ids = append(ids, id)
+			}
+			sort.Ints(ids)
+			for _, id := range ids {
+				id := id
+				acts = append(acts, action{fmt.Sprintf("cancel:a%d", id), func() {
+					s.cancels++
+					s.cancelMu.Lock()
+					cancel := s.cancelFn[id]
+					s.cancelMu.Unlock()
+					if cancel != nil {
+						cancel()
+					}
+					for _, op := range s.sc.snapshot() {
+						if op.Actor == id {
+							s.sc.complete(op, outCanceled)
+						}
 					}
 				}})
 			}
